@@ -65,6 +65,7 @@ func (vc *FuncVC) callFunction(st *State, fn *ssa.Function, bind []Value, args [
 }
 
 func (vc *FuncVC) callFunctionC(st *State, fn *ssa.Function, c *ssa.CallCommon, bind []Value, args []Value, pos token.Pos, k func(*State, Value)) {
+	vc.lockAtomic(st, fn, args, pos)
 	sp := vc.w.specFor(fn)
 	// a contract specialised to the closure passed as function argument takes precedence
 	for _, a := range args {
@@ -107,9 +108,9 @@ func (vc *FuncVC) callFunctionC(st *State, fn *ssa.Function, c *ssa.CallCommon, 
 		for f := st.fr; f != nil; f = f.parent {
 			depth++
 			if f.fn == fn && depth > 0 {
-				// recursion without a contract
-				vc.unknownCall(st, "recursive call of "+shortName(fn.String())+" (no contract)", fn.Signature, pos, k)
-				return
+				// recursion without a contract: outside the subset (R4: the function is reported as ungenerated and
+				// the check falls back to the real-code harness); a summary would have to be invented
+				panic(trError{fmt.Sprintf("%s: recursive function %s has no contract", vc.pos(pos), shortName(fn.String()))})
 			}
 		}
 		if depth <= maxInlineDepth {
@@ -725,5 +726,38 @@ func (vc *FuncVC) argTypeMods(c *ssa.CallCommon, mods map[string]bool) {
 			}
 		}
 		walk(a.Type(), 0)
+	}
+}
+
+// lockAtomic: the sequential contract of a method that works under its own mutex carries over to concurrent callers
+// only if the method body is a single critical section (C04, C18). A path that releases a mutex and acquires the same
+// mutex again splits the critical section — other goroutines may run in between, which sequential reasoning does not
+// see — so acquiring a mutex this execution has already released is an obligation (it fails unless the two mutexes are
+// provably different objects).
+func (vc *FuncVC) lockAtomic(st *State, fn *ssa.Function, args []Value, pos token.Pos) {
+	if len(args) == 0 || st.fr == nil || st.fr.parent != nil {
+		return // only calls made by the function under verification itself
+	}
+	var acquire bool
+	switch fn.String() {
+	case "(*sync.Mutex).Lock", "(*sync.RWMutex).Lock", "(*sync.RWMutex).RLock":
+		acquire = true
+	case "(*sync.Mutex).Unlock", "(*sync.RWMutex).Unlock", "(*sync.RWMutex).RUnlock":
+	default:
+		return
+	}
+	m, ok := args[0].(PtrVal)
+	if !ok {
+		return
+	}
+	if !acquire {
+		st.released = append(st.released, m)
+		return
+	}
+	for _, r := range st.released {
+		if r.Path != m.Path {
+			continue
+		}
+		vc.emit(st, vc.uniqueName("lock.atomic"), "safe", nil, Not(Eq(r.Base, m.Base)), "a mutex released earlier in this call is acquired again: the method body is not one critical section", pos)
 	}
 }
